@@ -149,6 +149,38 @@ func c09CheckHeader(hb []byte) (sig, what string) {
 	if !reflect.DeepEqual(h, h2) || h.HeaderVersion() != h2.HeaderVersion() {
 		return "unexplained:reparse-differs", fmt.Sprintf("parse(write(parse(x))) differs from parse(x): %+v vs %+v", h2, h)
 	}
+	// the reader and the buffer are the caller's: a header is decoded from where the reader stands (two
+	// headers behind a prefix parse as themselves, one after the other) and appended to what the buffer holds
+	other := make([]byte, 80)
+	for i := range other {
+		other[i] = hb[79-i] ^ 0x5A
+	}
+	stream := append(append(append([]byte{0xDE, 0xAD, 0xBE}, hb...), other...), 0xEF, 0x01)
+	rd := bytes.NewReader(stream)
+	rd.Seek(3, 0)
+	var s1, s2, o snes.Header
+	if err := s1.ReadHeader(rd); err != nil {
+		return "unexplained:read-error", "ReadHeader from a positioned reader failed: " + err.Error()
+	}
+	if !reflect.DeepEqual(h, s1) || h.HeaderVersion() != s1.HeaderVersion() {
+		return "unexplained:positioned-reader", fmt.Sprintf("a header read from a reader standing at offset 3 differs from the same 80 bytes read alone: %+v vs %+v", s1, h)
+	}
+	if err := o.ReadHeader(bytes.NewReader(other)); err != nil {
+		return "unexplained:read-error", "ReadHeader failed: " + err.Error()
+	}
+	if err := s2.ReadHeader(rd); err != nil {
+		return "unexplained:read-error", "second ReadHeader from the same reader failed: " + err.Error()
+	}
+	if !reflect.DeepEqual(o, s2) || o.HeaderVersion() != s2.HeaderVersion() {
+		return "unexplained:positioned-reader", fmt.Sprintf("the second header of a stream differs from the same 80 bytes read alone: %+v vs %+v", s2, o)
+	}
+	pre := bytes.NewBufferString("xyz")
+	if err := h.WriteHeader(pre); err != nil {
+		return "unexplained:write-error", "WriteHeader into a non-empty buffer failed: " + err.Error()
+	}
+	if pb := pre.Bytes(); len(pb) != 83 || string(pb[:3]) != "xyz" || !bytes.Equal(pb[3:], wb) {
+		return "unexplained:write-appends", fmt.Sprintf("WriteHeader into a buffer holding 3 bytes left %d bytes % x, want the 3 bytes followed by the 80 header bytes", len(pb), pb)
+	}
 	return "", ""
 }
 
